@@ -5,6 +5,7 @@ import (
 	"fmt"
 
 	"github.com/256dpi/lungo"
+	"github.com/256dpi/lungo/bsonkit"
 	"go.mongodb.org/mongo-driver/bson"
 	"go.mongodb.org/mongo-driver/mongo/options"
 
@@ -30,6 +31,12 @@ func init() {
 	})
 }
 
+// c13Engine is the engine behind the collection under test (engine-level calls).
+var c13Engine *lungo.Engine
+
+// c13Pool is the value pool of the documents of the current case.
+var c13Pool = gen.Core
+
 func c13Doc(r *fw.Rand) bson.D {
 	d := bson.D{}
 	val := func() interface{} {
@@ -38,23 +45,23 @@ func c13Doc(r *fw.Rand) bson.D {
 			n := r.Intn(3) + 1
 			a := bson.A{}
 			for i := 0; i < n; i++ {
-				a = append(a, gen.Scalar(r, gen.Core))
+				a = append(a, gen.Scalar(r, c13Pool))
 			}
 			return a
 		case 1:
-			return bson.D{{Key: "x", Value: gen.Scalar(r, gen.Core)}}
+			return bson.D{{Key: "x", Value: gen.Scalar(r, c13Pool)}}
 		case 2:
 			return nil
 		case 3:
 			if r.Chance(1, 6) {
 				return bson.A{}
 			}
-			return bson.A{bson.D{{Key: "x", Value: gen.Scalar(r, gen.Core)}}, bson.D{{Key: "x", Value: gen.Scalar(r, gen.Core)}}}
+			return bson.A{bson.D{{Key: "x", Value: gen.Scalar(r, c13Pool)}}, bson.D{{Key: "x", Value: gen.Scalar(r, c13Pool)}}}
 		}
 		if r.Bool() {
 			return fw.Pick(r, []interface{}{int32(1), int64(1), 1.0, gen.D128("1"), int32(2), 2.0, "a", "b", true})
 		}
-		return gen.Scalar(r, gen.Core)
+		return gen.Scalar(r, c13Pool)
 	}
 	for _, k := range []string{"a", "b", "c"} {
 		if r.Chance(4, 5) {
@@ -105,6 +112,7 @@ func runC13(c *fw.Ctx) {
 		return
 	}
 	defer engine.Close()
+	c13Engine = engine
 	ctx := context.Background()
 	for q := 0; q < ncases; q++ {
 		idx := c.Batch*ncases + q
@@ -112,6 +120,12 @@ func runC13(c *fw.Ctx) {
 			continue
 		}
 		r := c.Rand(idx)
+		// one case in eight draws its scalars from the boundary pool (numbers at
+		// the exactness borders of the numeric types, non-finite values)
+		c13Pool = gen.Core
+		if idx%8 == 5 {
+			c13Pool = gen.Boundary
+		}
 		n := r.Intn(13)
 		if r.Chance(1, 8) {
 			// long lists with many ties (library sorts switch algorithm with the length)
@@ -355,6 +369,30 @@ func c13Case(c *fw.Ctx, ctx context.Context, coll lungo.ICollection, docs []bson
 		}
 		// restore the replaced document, then delete through the sort
 		coll.ReplaceOne(ctx, bson.D{{Key: "_id", Value: sorted[0]}}, docs[sorted[0]])
+		// engine level: sorted one-document operations of Transaction.Bulk (the
+		// transaction is discarded afterwards)
+		if c13Engine != nil {
+			q, e1 := bsonkit.Transform(filter)
+			srt, e2 := bsonkit.Transform(sortDoc)
+			upd, _ := bsonkit.Transform(bson.D{{Key: "$set", Value: bson.D{{Key: "zbulk", Value: int32(1)}}}})
+			if txn, err := c13Engine.Begin(ctx, true); err == nil && e1 == nil && e2 == nil {
+				h := lungo.Handle{coll.Database().Name(), coll.Name()}
+				res, berr := txn.Bulk(h, []lungo.Operation{
+					{Opcode: lungo.Update, Filter: q, Sort: srt, Document: upd, Limit: 1},
+					{Opcode: lungo.Delete, Filter: q, Sort: srt, Limit: 1},
+				}, true)
+				c13Engine.Abort(txn)
+				c.Count("sorted_bulk_operations_checked", 1)
+				if berr == nil && len(res) == 2 {
+					for i, name := range []string{"update", "delete"} {
+						if res[i].Error != nil || len(res[i].Matched) != 1 || bsonkit.Get(res[i].Matched[0], "_id") != interface{}(sorted[0]) {
+							c.Violate("sort:bulk-"+name, "a sorted one-document "+name+" of Transaction.Bulk acted on another document than the first of the full ordering", w(map[string]interface{}{"full": sorted}))
+							break
+						}
+					}
+				}
+			}
+		}
 		var del bson.D
 		err = coll.FindOneAndDelete(ctx, filter, options.FindOneAndDelete().SetSort(sortDoc)).Decode(&del)
 		c.Count("sorted_writes_checked", 1)
